@@ -803,7 +803,7 @@ func ComparisonExpr(query *Query, current Map, expr *sqlparser.ComparisonExpr, o
 			}
 			return !rs, nil
 		}
-	case sqlparser.InOp:
+	case sqlparser.InOp, sqlparser.NotInOp:
 		{
 			if right == nil {
 				return false, EXPECTATION_FAILED.Extend("failed to build `IN` expreesion. right side value is nil")
@@ -812,6 +812,8 @@ func ComparisonExpr(query *Query, current Map, expr *sqlparser.ComparisonExpr, o
 			if !ok {
 				return false, INVALID_TYPE.Extend(fmt.Sprintf("failed to build `IN` expression. expected an array but found %T", right))
 			}
+			// NOT IN is the complement of IN
+			negate := expr.Operator == sqlparser.NotInOp
 			for _, value := range rightArray {
 				switch value := value.(type) {
 				case Map:
@@ -821,7 +823,7 @@ func ComparisonExpr(query *Query, current Map, expr *sqlparser.ComparisonExpr, o
 								value = *v
 							}
 							if compare.Compare(leftValue, value) == 0 {
-								return true, nil
+								return !negate, nil
 							}
 							break
 						}
@@ -832,28 +834,12 @@ func ComparisonExpr(query *Query, current Map, expr *sqlparser.ComparisonExpr, o
 							value = *v
 						}
 						if compare.Compare(leftValue, value) == 0 {
-							return true, nil
+							return !negate, nil
 						}
 					}
 				}
 			}
-			return false, nil
-		}
-	case sqlparser.NotInOp:
-		{
-			if right == nil {
-				return false, EXPECTATION_FAILED.Extend("failed to build `NOT IN` expreesion. right side value is nil")
-			}
-			rightArray, ok := (right).([]any)
-			if !ok {
-				return false, INVALID_TYPE.Extend(fmt.Sprintf("failed to build `IN` expression. expected an array but found %T", right))
-			}
-			for _, value := range rightArray {
-				if leftValue == fmt.Sprintf("%v", value) {
-					return false, nil
-				}
-			}
-			return true, nil
+			return negate, nil
 		}
 	default:
 		{
